@@ -771,6 +771,13 @@ type UploadStream struct {
 }
 
 func newUploadStream(ctx context.Context, bucket *Bucket, id interface{}, name string, chunkSize int, metadata interface{}) *UploadStream {
+	// the buffer must hold at least one chunk, a full buffer without a
+	// complete chunk can never be flushed
+	bufferSize := gridfs.UploadBufferSize
+	if chunkSize > bufferSize {
+		bufferSize = chunkSize
+	}
+
 	return &UploadStream{
 		context:   ctx,
 		bucket:    bucket,
@@ -778,7 +785,7 @@ func newUploadStream(ctx context.Context, bucket *Bucket, id interface{}, name s
 		name:      name,
 		metadata:  metadata,
 		chunkSize: chunkSize,
-		buffer:    make([]byte, gridfs.UploadBufferSize),
+		buffer:    make([]byte, bufferSize),
 	}
 }
 
